@@ -1582,6 +1582,45 @@ func (c *immuClient) VerifiedTxByID(ctx context.Context, tx uint64) (*schema.Tx,
 		}
 	}
 
+	// the transaction handed back to the caller must be the proven one: rebuild it from the
+	// returned entries (which recalculates Eh) and compare its Alh with the proven header's
+	if vTx.Tx == nil || vTx.Tx.Header == nil || vTx.Tx.Header.Id != tx ||
+		int(vTx.Tx.Header.Nentries) != len(vTx.Tx.Entries) {
+		return nil, store.ErrCorruptedData
+	}
+
+	for _, e := range vTx.Tx.Entries {
+		if e == nil {
+			return nil, store.ErrCorruptedData
+		}
+	}
+
+	_, err = store.EntrySpecDigestFor(int(vTx.Tx.Header.Version))
+	if err != nil {
+		return nil, err
+	}
+
+	returnedTx := schema.TxFromProto(vTx.Tx)
+
+	err = returnedTx.BuildHashTree()
+	if err != nil {
+		return nil, store.ErrCorruptedData
+	}
+
+	provenAlh := targetAlh
+	if state.TxId > tx {
+		provenAlh = sourceAlh
+	}
+
+	if returnedTx.Header().Alh() != provenAlh {
+		return nil, store.ErrCorruptedData
+	}
+
+	// TxFromProto recalculated Eh from the entries: the header handed back must carry the same value
+	if len(vTx.Tx.Header.EH) != sha256.Size || schema.DigestFromProto(vTx.Tx.Header.EH) != returnedTx.Header().Eh {
+		return nil, store.ErrCorruptedData
+	}
+
 	newState := &schema.ImmutableState{
 		Db:        c.currentDatabase(),
 		TxId:      targetID,
